@@ -89,7 +89,7 @@ RingFails(e) ==
 MapStepFails(m, k, v, x, tag) ==
   CASE k = "set" ->
          LET r == MSet(m, v) IN
-         (IF On("C15") THEN F(r.err = ANY \/ x.ret = r.err, tag \o ".set.ret") ELSE {})
+         (IF On("C15") THEN F(r.err = ANY \/ x.ret = r.err \/ ("erralt" \in DOMAIN r /\ x.ret = r.erralt), tag \o ".set.ret") ELSE {})
          \cup (IF On("C14") THEN F(x.ret = x.verr, "C14.verr") ELSE {})
     [] k = "get" ->
          LET r == MGet(m, v) IN
@@ -109,9 +109,13 @@ BMapFails(e) ==
       r == MapAfter(m, e.k, e.v)
       hdr2 == IF e.which = "hdr" THEN r.map ELSE b.hdr
       clm2 == IF e.which = "hdr" THEN b.clm ELSE r.map
+      \* where the specification allows a second outcome (r.alt), either is accepted
+      ra == IF "alt" \in DOMAIN r THEN r.alt ELSE r.map
+      hdr3 == IF e.which = "hdr" THEN ra ELSE b.hdr
+      clm3 == IF e.which = "hdr" THEN b.clm ELSE ra
   IN MapStepFails(m, e.k, e.v, e, "C15")
      \cup (IF On("C15") /\ r.err # ANY /\ Has(e, "hdr")
-           THEN F(MapOfList(e.hdr) = hdr2 /\ MapOfList(e.clm) = clm2, "C15.mapafter") ELSE {})
+           THEN F((MapOfList(e.hdr) = hdr2 /\ MapOfList(e.clm) = clm2) \/ (MapOfList(e.hdr) = hdr3 /\ MapOfList(e.clm) = clm3), "C15.mapafter") ELSE {})
 
 \* callback program steps against their logged results (C15 on jwt_t)
 RECURSIVE CbFails(_, _, _, _)
@@ -391,7 +395,8 @@ Apply(e) ==
     [] e.e = "BIat" -> BIat(e.b, e.enable)
     [] e.e = "BOffset" -> BOffset(e.b, e.claim, e.secs, e.ret)
     [] e.e = "BMap" ->
-         IF MapAfter(IF e.which = "hdr" THEN builders[e.b].hdr ELSE builders[e.b].clm, e.k, e.v).err = ANY /\ Has(e, "hdr")
+         IF (LET ma == MapAfter(IF e.which = "hdr" THEN builders[e.b].hdr ELSE builders[e.b].clm, e.k, e.v) IN ma.err = ANY \/ "alt" \in DOMAIN ma)
+            /\ Has(e, "hdr")
          THEN /\ builders' = [builders EXCEPT ![e.b].hdr = MapOfList(e.hdr), ![e.b].clm = MapOfList(e.clm)]
               /\ UNCHANGED <<now, ops, rings, checkers, toks, nextId>>
          ELSE BMap(e.b, e.k, e.which, e.v)
